@@ -282,6 +282,21 @@ def _jsonify(v):
     return json.loads(json.dumps(v))
 
 
+def _json_header_read(e, rd, table, lines):
+    """Reading back with an explicit header (fields reordered, one dropped,
+    one unknown) and a missing value."""
+    hdr = list(table[0])
+    sel = list(reversed(hdr))[:max(1, len(hdr) - 1)] + ['nosuchfield']
+    got = [r for r in iter(e.fromjson(rd, header=sel, missing='M',
+                                      lines=lines))]
+    want = [tuple(sel)]
+    for r in table[1:]:
+        d = dict((h, _jsonify(r[i]) if i < len(r) else None)
+                 for i, h in enumerate(hdr))
+        want.append(tuple(d.get(f, 'M') for f in sel))
+    return got, want
+
+
 def _write(e, fmt, op, table, tgt, args, wh):
     a = dict(args)
     src = tgt
@@ -401,8 +416,21 @@ def run_case(case):
                                 for d in ds]
                         else:
                             got = [r for r in iter(e.fromjson(rd))]
+                            got2, want2 = _json_header_read(
+                                e, rd, table, False)
+                            if canon_rows(got2) != canon_rows(want2):
+                                raise _Bad('round-trip-differs',
+                                           '%s: read back with header= and '
+                                           'missing= gives %r, expected %r'
+                                           % (what, got2, want2))
                     elif fmt == 'jsonlines':
                         got = [r for r in iter(e.fromjson(rd, lines=True))]
+                        got2, want2 = _json_header_read(e, rd, table, True)
+                        if canon_rows(got2) != canon_rows(want2):
+                            raise _Bad('round-trip-differs',
+                                       '%s: read back with header= and '
+                                       'missing= gives %r, expected %r'
+                                       % (what, got2, want2))
                     elif fmt == 'jsonarrays':
                         raw = tgt.raw().decode('utf-8')
                         if 'prefix' in args:
